@@ -240,10 +240,4 @@ theorem compact_edgeProps (c : Cfg) (s : Engine) (hdel : ∀ r ∈ s.runs, r.eDe
     ((s.compact c).edgeProps e).lookup k = (s.edgeProps e).lookup k := by
   rw [edgeProps_lookup, edgeProps_lookup, compact_edgeProp c s hdel hroot]
 
-/-- the engine state a compaction may start from without losing anything: the runs hold no node or
-    edge tombstone and no property removal (the store is empty while there is no root) -/
-def compactSafe (s : Engine) : Bool :=
-  s.runs.all (fun r => r.tombNodes.isEmpty && r.tombEdges.isEmpty && r.nDel.isEmpty && r.eDel.isEmpty) &&
-  (s.propsRoot != 0 || s.store.isEmpty)
-
 end Nervus.Storage
